@@ -6,7 +6,7 @@ from . import ir
 VAR_VALUES = {
     "int": [0, 1, 2, 7, -3, 1000],
     "str": ["", "a", "b", "a|b", "é"],
-    "float": [0.0, 0.5, -1.5, 2.0],
+    "float": [0.0, 0.5, -1.5, 2.0, 1.0],
     "list": [[], [1], [1, 2], ["a"], [[1], [2]], [[1], [3]], [{"a": 1}], [{"a": 2}]],
     "dict": [{}, {"a": 1}, {"a": 2}, {"b": 1}, {"a": 1, "b": 2}, {"w": {"x": 1}}, {"w": {"x": 2}}, {"w": [1, 2]}, {"w": [1, 3]}],
     "bool": [True, False],
@@ -19,7 +19,8 @@ VAR_VALUES = {
 CONSERVATIVE_KINDS = ["int", "str", "float", "list", "dict"]
 ALL_KINDS = list(VAR_VALUES)
 
-LITERALS = [0, 1, 2, 7, -1, "a", "b", "", None, True, False, 0.5]
+# (values of different types that compare and hash equal - True / 1 / 1.0, False / 0 / 0.0 - are deliberate)
+LITERALS = [0, 1, 2, 7, -1, "a", "b", "", None, True, False, 0.5, 0.0, 1.0, 2.0, "1", "0"]
 SAFE_LITERALS = [1, 2, 7, -1, "a", "b", 0.5]
 
 PATH_POOL = ["/a", "/b", "/c", "/d/e", "/d/f", "/g/h/i", "/g/h/j", "/k", "/l/m", "/n", "/o/p/q/r", "/s"]
@@ -127,6 +128,8 @@ def gen_program(rng, feat):
              "pad": 0, "body": [], "comment": 0, "end": bool(feat.get("end_markers"))}
         if kind == "class":
             f["ret"] = "tuple"
+        if f["ret"] == "str":
+            f["eol"] = rng.choice(["", "", "\r\n", "\r", "\n", "a\r\nb\rc\n"])
         if kind == "data":
             f["path"] = paths.pop()
             if feat["pathvars"] and rng.random() < 0.4:
@@ -585,6 +588,23 @@ def gen_edit(rng, prog, kinds):
                 fn, i, j = rng.choice(ml if ml and rng.random() < 0.5 else sites)
                 cur = prog["funcs"][fn]["body"][i]["args"][j].get("x")
                 return {"kind": "rtx", "f": fn, "item": i, "arg": j, "value": rng.choice([x for x in [2, 3, 5, 8] if x != cur])}
+        if k == "addload":
+            # a dds.load statement appears in a function: of any other path of the program, or of the very path the
+            # function is kept at (an evaluation that reads what it is about to produce)
+            fns = [fn for fn in names if prog["funcs"][fn]["kind"] != "class" and not prog["funcs"][fn].get("ill")]
+            paths = all_paths(prog)
+            if fns and paths:
+                from .cone import Cones
+
+                fn = rng.choice(fns)
+                f = prog["funcs"][fn]
+                own = f.get("path")
+                if own is None:
+                    site = Cones(prog).keep_site(fn)
+                    if site is not None:
+                        own = prog["funcs"][site[0]]["body"][site[1]]["path"]
+                pth = own if own is not None and rng.random() < 0.5 else rng.choice(paths)
+                return {"kind": "addload", "f": fn, "path": pth, "front": rng.random() < 0.5}
         if k == "default":
             sites = [(fn, j) for fn in names for j, (_, d) in enumerate(prog["funcs"][fn]["params"]) if d != ir.NODEFAULT]
             if sites:
@@ -688,6 +708,17 @@ def apply_edit(prog, e):
             a = p["funcs"][e["f"]]["body"][e["item"]]["args"][e["arg"]]
             if a["k"] in ("rt", "kwrt"):
                 a["x"] = e["value"]
+        elif k == "addload":
+            f = p["funcs"][e["f"]]
+            if e.get("front"):
+                f["body"].insert(0, {"t": "load", "path": e["path"]})
+                for it in f["body"]:
+                    for a in it.get("args", []):
+                        x = a.get("e")
+                        if isinstance(x, str) and x.startswith("r") and x[1:].isdigit():
+                            a["e"] = f"r{int(x[1:]) + 1}"
+            else:
+                f["body"].append({"t": "load", "path": e["path"]})
         elif k == "default":
             prm = p["funcs"][e["f"]]["params"][e["param"]]
             if prm[1] != ir.NODEFAULT:
